@@ -332,3 +332,916 @@ Proof.
   destruct ((off <? prev) || (caf =? 0)); [left; reflexivity|].
   destruct ((off - prev) / caf * caf =? off - prev); [right; eexists; reflexivity|left; reflexivity].
 Qed.
+(* ------------------------------------------------------------------ *)
+(* 3. LEB128 writers decode (LebSpec) to the value written             *)
+(* ------------------------------------------------------------------ *)
+
+Lemma low7_land255 v : low7 (N.land v 255) = v mod 128.
+Proof.
+  unfold low7. rewrite <- N.land_assoc. change (N.land 255 127) with (N.ones 7).
+  rewrite N.land_ones. reflexivity.
+Qed.
+
+Lemma shiftr7 v : N.shiftr v 7 = v / 128.
+Proof. rewrite N.shiftr_div_pow2. reflexivity. Qed.
+
+(* byte facts, by sweeps *)
+Lemma byte7_plain x : x < 128 ->
+  cont_bit (n2b x) = false /\ N.land (b2n (n2b x)) 127 = x.
+Proof.
+  intros H.
+  assert (E : (negb (cont_bit (n2b x)) && (N.land (b2n (n2b x)) 127 =? x)) = true).
+  { apply (forall_lt (fun x => negb (cont_bit (n2b x)) && (N.land (b2n (n2b x)) 127 =? x)) 128);
+      [vm_compute; reflexivity|exact H]. }
+  apply andb_true_iff in E. destruct E as [E1 E2]. split; [|lia].
+  destruct (cont_bit (n2b x)); [discriminate|reflexivity].
+Qed.
+
+Lemma byte7_cont x : x < 128 ->
+  cont_bit (n2b (N.lor x CONT)) = true /\ N.land (b2n (n2b (N.lor x CONT))) 127 = x.
+Proof.
+  intros H.
+  assert (E : (cont_bit (n2b (N.lor x CONT)) && (N.land (b2n (n2b (N.lor x CONT))) 127 =? x)) = true).
+  { apply (forall_lt (fun x => cont_bit (n2b (N.lor x CONT)) && (N.land (b2n (n2b (N.lor x CONT))) 127 =? x)) 128);
+      [vm_compute; reflexivity|exact H]. }
+  apply andb_true_iff in E. destruct E as [E1 E2]. split; [exact E1|lia].
+Qed.
+
+Lemma byte8_plain x : x < 256 ->
+  cont_bit (n2b (N.land x 127)) = false /\ N.land (b2n (n2b (N.land x 127))) 127 = x mod 128.
+Proof.
+  intros H.
+  assert (E : (negb (cont_bit (n2b (N.land x 127))) && (N.land (b2n (n2b (N.land x 127))) 127 =? x mod 128)) = true).
+  { apply (forall_lt (fun x => negb (cont_bit (n2b (N.land x 127))) && (N.land (b2n (n2b (N.land x 127))) 127 =? x mod 128)) 256);
+      [vm_compute; reflexivity|exact H]. }
+  apply andb_true_iff in E. destruct E as [E1 E2]. split; [|lia].
+  destruct (cont_bit (n2b (N.land x 127))); [discriminate|reflexivity].
+Qed.
+
+Lemma byte8_cont x : x < 256 ->
+  cont_bit (n2b (N.lor x CONT)) = true /\ N.land (b2n (n2b (N.lor x CONT))) 127 = x mod 128.
+Proof.
+  intros H.
+  assert (E : (cont_bit (n2b (N.lor x CONT)) && (N.land (b2n (n2b (N.lor x CONT))) 127 =? x mod 128)) = true).
+  { apply (forall_lt (fun x => cont_bit (n2b (N.lor x CONT)) && (N.land (b2n (n2b (N.lor x CONT))) 127 =? x mod 128)) 256);
+      [vm_compute; reflexivity|exact H]. }
+  apply andb_true_iff in E. destruct E as [E1 E2]. split; [exact E1|lia].
+Qed.
+
+Lemma pow7_succ (f : nat) : 2 ^ (7 * N.of_nat (S f)) = 128 * 2 ^ (7 * N.of_nat f).
+Proof.
+  rewrite Nat2N.inj_succ. replace (7 * N.succ (N.of_nat f)) with (7 + 7 * N.of_nat f) by lia.
+  rewrite N.pow_add_r. reflexivity.
+Qed.
+
+Lemma pow2_pos n : 0 < 2 ^ n.
+Proof. apply N.neq_0_lt_0. apply N.pow_nonzero. discriminate. Qed.
+
+(* unsigned *)
+Lemma write_uleb_fuel_spec : forall (fuel : nat) (v : N),
+  fuel <> O -> v < 2 ^ (7 * N.of_nat fuel) ->
+  exists bs, write_uleb_fuel fuel v = Ok bs /\
+             (forall rest, split_leb (bs ++ rest) = Some (bs, rest)) /\ uval bs = v.
+Proof.
+  induction fuel as [|f IH]; intros v Hf Hv; [congruence|].
+  cbn [write_uleb_fuel]. rewrite low7_land255, shiftr7.
+  assert (Hm : v mod 128 < 128) by (apply N.mod_lt; lia).
+  destruct (v / 128 =? 0) eqn:E.
+  - destruct (byte7_plain (v mod 128) Hm) as [Hc Hl].
+    eexists. split; [reflexivity|]. split.
+    + intros rest. cbn [app split_leb]. rewrite Hc. reflexivity.
+    + cbn [uval]. rewrite Hl. lia.
+  - assert (Hf' : f <> O).
+    { intros ->. change (7 * N.of_nat 1) with 7 in Hv. change (2 ^ 7) with 128 in Hv. lia. }
+    rewrite pow7_succ in Hv.
+    destruct (IH (v / 128) Hf') as (bs & Hw & Hs & Hu); [lia|].
+    rewrite Hw. cbn [bind].
+    destruct (byte7_cont (v mod 128) Hm) as [Hc Hl].
+    eexists. split; [reflexivity|]. split.
+    + intros rest. cbn [app split_leb]. rewrite Hc, Hs. reflexivity.
+    + cbn [uval]. rewrite Hl, Hu. lia.
+Qed.
+
+Lemma write_uleb128_spec (v : N) : v < 2 ^ 64 ->
+  exists bs, write_uleb128 v = Ok bs /\ bs <> [] /\ forall rest, uleb (bs ++ rest) = Some (v, rest).
+Proof.
+  intros Hv. unfold write_uleb128.
+  destruct (write_uleb_fuel_spec 10 v) as (bs & Hw & Hs & Hu); [discriminate| |].
+  - change (7 * N.of_nat 10) with 70.
+    apply N.lt_le_trans with (2 ^ 64); [exact Hv|]. apply N.pow_le_mono_r; lia.
+  - exists bs. split; [exact Hw|]. split.
+    + intros ->. specialize (Hs []). cbn in Hs. discriminate.
+    + intros rest. unfold uleb. rewrite Hs, Hu. reflexivity.
+Qed.
+
+(* signed *)
+Local Open Scope Z_scope.
+
+Definition hpow (n : nat) : Z := 64 * 128 ^ Z.of_nat (n - 1).
+
+Lemma hpow_pos n : 0 < hpow n.
+Proof. unfold hpow. assert (0 < 128 ^ Z.of_nat (n - 1)) by (apply Z.pow_pos_nonneg; lia). lia. Qed.
+
+Lemma hpow_succ n : n <> O -> hpow (S n) = 128 * hpow n.
+Proof.
+  intros Hn. unfold hpow. replace (S n - 1)%nat with (S (n - 1)) by lia.
+  rewrite Nat2Z.inj_succ, Z.pow_succ_r by lia. lia.
+Qed.
+
+Lemma hpow_1 : hpow 1 = 64.
+Proof. reflexivity. Qed.
+
+Lemma shiftr_6_1 v : Z.shiftr (Z.shiftr v 6) 1 = v / 128.
+Proof.
+  rewrite !Z.shiftr_div_pow2 by lia. change (2 ^ 6) with 64. change (2 ^ 1) with 2.
+  rewrite Z.div_div by lia. reflexivity.
+Qed.
+
+Lemma sleb_done_iff v :
+  ((Z.shiftr v 6 =? 0) || (Z.shiftr v 6 =? -1)) = true <-> -64 <= v < 64.
+Proof.
+  rewrite Z.shiftr_div_pow2 by lia. change (2 ^ 6) with 64. lia.
+Qed.
+
+Lemma to_N_mod256_lt v : (Z.to_N (v mod 256) < 256)%N.
+Proof. lia. Qed.
+
+Lemma to_N_mod256_mod128 v : Z.of_N (Z.to_N (v mod 256) mod 128)%N = v mod 128.
+Proof. lia. Qed.
+
+(* invariant of the signed writer: the encoding has the value's low 7*len bits and the value fits them *)
+Lemma write_sleb_fuel_spec : forall (fuel : nat) (v : Z),
+  fuel <> O -> - hpow fuel <= v < hpow fuel ->
+  exists bs, write_sleb_fuel fuel v = Ok bs /\
+             (forall rest, split_leb (bs ++ rest) = Some (bs, rest)) /\
+             bs <> [] /\
+             Z.of_N (uval bs) = v mod (2 * hpow (length bs)) /\
+             - hpow (length bs) <= v < hpow (length bs).
+Proof.
+  induction fuel as [|f IH]; intros v Hf Hv; [congruence|].
+  cbn [write_sleb_fuel]. rewrite shiftr_6_1.
+  pose proof (to_N_mod256_lt v) as Hb.
+  destruct ((Z.shiftr v 6 =? 0) || (Z.shiftr v 6 =? -1)) eqn:E.
+  - apply sleb_done_iff in E.
+    destruct (byte8_plain _ Hb) as [Hc Hl].
+    eexists. split; [reflexivity|]. split; [|split; [discriminate|]].
+    + intros rest. cbn [app split_leb]. rewrite Hc. reflexivity.
+    + cbn [uval length]. rewrite hpow_1. rewrite Hl. split; [|lia].
+      rewrite N.mul_0_r, N.add_0_r. rewrite to_N_mod256_mod128. lia.
+  - assert (E' : ~ (-64 <= v < 64)) by (rewrite <- sleb_done_iff; congruence).
+    assert (Hf' : f <> O).
+    { intros ->. rewrite hpow_1 in Hv. lia. }
+    rewrite hpow_succ in Hv by exact Hf'.
+    pose proof (hpow_pos f) as HP.
+    destruct (IH (v / 128) Hf') as (bs & Hw & Hs & Hne & Hu & Hr); [lia|].
+    rewrite Hw. cbn [bind].
+    destruct (byte8_cont _ Hb) as [Hc Hl].
+    eexists. split; [reflexivity|]. split; [|split; [discriminate|]].
+    + intros rest. cbn [app split_leb]. rewrite Hc, Hs. reflexivity.
+    + cbn [uval length].
+      assert (Hlen : length bs <> O) by (destruct bs; [congruence|discriminate]).
+      rewrite hpow_succ by exact Hlen.
+      pose proof (hpow_pos (length bs)) as HP2.
+      rewrite Hl. rewrite N2Z.inj_add, N2Z.inj_mul, Hu, to_N_mod256_mod128.
+      split; [|lia].
+      replace (2 * (128 * hpow (length bs))) with (128 * (2 * hpow (length bs))) by lia.
+      assert (EQ : v mod (128 * (2 * hpow (length bs))) =
+                   v mod 128 + 128 * ((v / 128) mod (2 * hpow (length bs)))) by (apply Z.rem_mul_r; lia).
+      rewrite EQ. change (Z.of_N 128) with 128. reflexivity.
+Qed.
+
+Lemma pow_bits_hpow (n : nat) : n <> O ->
+  Z.of_N (2 ^ (7 * N.of_nat n - 1))%N = hpow n /\ Z.of_N (2 ^ (7 * N.of_nat n))%N = 2 * hpow n.
+Proof.
+  intros Hn. unfold hpow.
+  assert (E1 : (7 * N.of_nat n - 1 = 6 + 7 * N.of_nat (n - 1))%N) by lia.
+  assert (E2 : (7 * N.of_nat n = 1 + (6 + 7 * N.of_nat (n - 1)))%N) by lia.
+  assert (P : Z.of_N (2 ^ (6 + 7 * N.of_nat (n - 1)))%N = 64 * 128 ^ Z.of_nat (n - 1)).
+  { rewrite N.pow_add_r, N.pow_mul_r.
+    change (2 ^ 7)%N with 128%N. change (2 ^ 6)%N with 64%N.
+    rewrite N2Z.inj_mul, N2Z.inj_pow, nat_N_Z. reflexivity. }
+  split.
+  - rewrite E1. exact P.
+  - rewrite E2. rewrite (N.pow_add_r 2 1). change (2 ^ 1)%N with 2%N.
+    rewrite N2Z.inj_mul, P. reflexivity.
+Qed.
+
+Lemma sval_of_invariant bs v :
+  bs <> [] -> Z.of_N (uval bs) = v mod (2 * hpow (length bs)) ->
+  - hpow (length bs) <= v < hpow (length bs) -> sval bs = v.
+Proof.
+  intros Hne Hu Hr. unfold sval.
+  assert (Hlen : length bs <> O) by (destruct bs; [congruence|discriminate]).
+  destruct (pow_bits_hpow (length bs) Hlen) as [P1 P2].
+  pose proof (hpow_pos (length bs)) as HP.
+  assert (Hcases : (0 <= v /\ Z.of_N (uval bs) = v) \/
+                   (v < 0 /\ Z.of_N (uval bs) = v + 2 * hpow (length bs))).
+  { destruct (Z_lt_le_dec v 0) as [Hneg|Hpos].
+    - right. split; [lia|]. rewrite Hu. symmetry.
+      apply (Z.mod_unique_pos v (2 * hpow (length bs)) (-1) (v + 2 * hpow (length bs))); lia.
+    - left. split; [lia|]. rewrite Hu. apply Z.mod_small. lia. }
+  destruct (uval bs <? 2 ^ (7 * N.of_nat (length bs) - 1))%N eqn:E.
+  - assert (Z.of_N (uval bs) < hpow (length bs)) by lia. lia.
+  - assert (hpow (length bs) <= Z.of_N (uval bs)) by lia. rewrite P2. lia.
+Qed.
+
+Lemma write_sleb128_spec (v : Z) : -9223372036854775808 <= v < 9223372036854775808 ->
+  exists bs, write_sleb128 v = Ok bs /\ bs <> [] /\ forall rest, sleb (bs ++ rest) = Some (v, rest).
+Proof.
+  intros Hv. unfold write_sleb128.
+  destruct (write_sleb_fuel_spec 10 v) as (bs & Hw & Hs & Hne & Hu & Hr); [discriminate| |].
+  - assert (E : hpow 10 = 590295810358705651712) by (vm_compute; reflexivity). rewrite E. lia.
+  - exists bs. split; [exact Hw|]. split; [exact Hne|].
+    intros rest. unfold sleb. rewrite Hs. rewrite (sval_of_invariant bs v Hne Hu Hr). reflexivity.
+Qed.
+Local Close Scope Z_scope.
+
+(* length-prefixed blobs *)
+Lemma write_blob_spec (e : list byte) : is_blob e = true ->
+  exists bs, write_blob e = Ok bs /\ bs <> [] /\ forall rest, blob (bs ++ rest) = Some (e, rest).
+Proof.
+  intros He. unfold is_blob in He. unfold write_blob, len.
+  destruct (write_uleb128_spec (N.of_nat (length e))) as (l & Hw & Hne & Hu);
+    [change (2 ^ 64) with 18446744073709551616; lia|].
+  rewrite Hw. cbn [bind]. eexists. split; [reflexivity|]. split.
+  - destruct l; [congruence|discriminate].
+  - intros rest. unfold blob. rewrite <- app_assoc, Hu.
+    rewrite app_length.
+    destruct (N.of_nat (length e + length rest) <? N.of_nat (length e)) eqn:E; [lia|].
+    rewrite Nat2N.id, firstn_app_exact, skipn_app_exact. reflexivity.
+Qed.
+(* ------------------------------------------------------------------ *)
+(* 4. every written instruction decodes to the instruction             *)
+(* ------------------------------------------------------------------ *)
+
+Lemma decode1_x05 be r : decode1 be (x05 :: r) =
+  omap (uleb r) (fun g r1 => omap (uleb r1) (fun o r2 => Some (DOffset g o, r2))).
+Proof. reflexivity. Qed.
+Lemma decode1_x06 be r : decode1 be (x06 :: r) = omap (uleb r) (fun g r1 => Some (DRestore g, r1)).
+Proof. reflexivity. Qed.
+Lemma decode1_x07 be r : decode1 be (x07 :: r) = omap (uleb r) (fun g r1 => Some (DUndefined g, r1)).
+Proof. reflexivity. Qed.
+Lemma decode1_x08 be r : decode1 be (x08 :: r) = omap (uleb r) (fun g r1 => Some (DSameValue g, r1)).
+Proof. reflexivity. Qed.
+Lemma decode1_x09 be r : decode1 be (x09 :: r) =
+  omap (uleb r) (fun g r1 => omap (uleb r1) (fun h r2 => Some (DRegister g h, r2))).
+Proof. reflexivity. Qed.
+Lemma decode1_x0a be r : decode1 be (x0a :: r) = Some (DRememberState, r).
+Proof. reflexivity. Qed.
+Lemma decode1_x0b be r : decode1 be (x0b :: r) = Some (DRestoreState, r).
+Proof. reflexivity. Qed.
+Lemma decode1_x0c be r : decode1 be (x0c :: r) =
+  omap (uleb r) (fun g r1 => omap (uleb r1) (fun o r2 => Some (DDefCfa g o, r2))).
+Proof. reflexivity. Qed.
+Lemma decode1_x0d be r : decode1 be (x0d :: r) = omap (uleb r) (fun g r1 => Some (DDefCfaRegister g, r1)).
+Proof. reflexivity. Qed.
+Lemma decode1_x0e be r : decode1 be (x0e :: r) = omap (uleb r) (fun o r1 => Some (DDefCfaOffset o, r1)).
+Proof. reflexivity. Qed.
+Lemma decode1_x0f be r : decode1 be (x0f :: r) = omap (blob r) (fun e r1 => Some (DDefCfaExpression e, r1)).
+Proof. reflexivity. Qed.
+Lemma decode1_x10 be r : decode1 be (x10 :: r) =
+  omap (uleb r) (fun g r1 => omap (blob r1) (fun e r2 => Some (DExpression g e, r2))).
+Proof. reflexivity. Qed.
+Lemma decode1_x11 be r : decode1 be (x11 :: r) =
+  omap (uleb r) (fun g r1 => omap (sleb r1) (fun o r2 => Some (DOffsetExtendedSf g o, r2))).
+Proof. reflexivity. Qed.
+Lemma decode1_x12 be r : decode1 be (x12 :: r) =
+  omap (uleb r) (fun g r1 => omap (sleb r1) (fun o r2 => Some (DDefCfaSf g o, r2))).
+Proof. reflexivity. Qed.
+Lemma decode1_x13 be r : decode1 be (x13 :: r) = omap (sleb r) (fun o r1 => Some (DDefCfaOffsetSf o, r1)).
+Proof. reflexivity. Qed.
+Lemma decode1_x14 be r : decode1 be (x14 :: r) =
+  omap (uleb r) (fun g r1 => omap (uleb r1) (fun o r2 => Some (DValOffset g o, r2))).
+Proof. reflexivity. Qed.
+Lemma decode1_x15 be r : decode1 be (x15 :: r) =
+  omap (uleb r) (fun g r1 => omap (sleb r1) (fun o r2 => Some (DValOffsetSf g o, r2))).
+Proof. reflexivity. Qed.
+Lemma decode1_x16 be r : decode1 be (x16 :: r) =
+  omap (uleb r) (fun g r1 => omap (blob r1) (fun e r2 => Some (DValExpression g e, r2))).
+Proof. reflexivity. Qed.
+Lemma decode1_x2d be r : decode1 be (x2d :: r) = Some (DNegateRaState, r).
+Proof. reflexivity. Qed.
+Lemma decode1_x2e be r : decode1 be (x2e :: r) = omap (uleb r) (fun n r1 => Some (DArgsSize n, r1)).
+Proof. reflexivity. Qed.
+
+Lemma z_as_u64_nonneg (o : Z) : (0 <= o < 9223372036854775808)%Z ->
+  z_as_u64 o < 2 ^ 64 /\ Z.of_N (z_as_u64 o) = o.
+Proof.
+  intros H. unfold z_as_u64, of_signed. change (Z.of_N (2 ^ 64)) with 18446744073709551616%Z.
+  change (2 ^ 64) with 18446744073709551616. lia.
+Qed.
+
+Ltac use_uleb v H :=
+  let lb := fresh "lb" in let Hw := fresh "Hw" in let Hne := fresh "Hne" in let Hd := fresh "Hd" in
+  destruct (write_uleb128_spec v) as (lb & Hw & Hne & Hd);
+  [ try (change (2 ^ 64) with 18446744073709551616; lia)
+  | rewrite Hw in H; cbn [bind] in H ].
+Ltac use_sleb v H :=
+  let lb := fresh "sb" in let Hw := fresh "Hw" in let Hne := fresh "Hne" in let Hd := fresh "Hd" in
+  destruct (write_sleb128_spec v) as (lb & Hw & Hne & Hd);
+  [ try lia
+  | rewrite Hw in H; cbn [bind] in H ].
+Ltac use_blob e H :=
+  let lb := fresh "bb" in let Hw := fresh "Hw" in let Hne := fresh "Hne" in let Hd := fresh "Hd" in
+  destruct (write_blob_spec e) as (lb & Hw & Hne & Hd);
+  [ try assumption
+  | rewrite Hw in H; cbn [bind] in H ].
+
+Ltac finish_ok H := injection H as H; rewrite <- H; clear H.
+
+Lemma fdo_inv dbg o daf (k : Z -> res (list byte)) bs :
+  is_i32 o = true -> is_i8 daf = true ->
+  bind (factored_data_offset dbg o daf) k = Ok bs ->
+  exists f, (f * daf = o)%Z /\ is_i32 f = true /\ k f = Ok bs.
+Proof.
+  intros Ho Hd H. destruct (factored_data_offset dbg o daf) as [f| | |] eqn:E; try discriminate.
+  apply (factored_data_offset_ok dbg o daf f Ho Hd) in E. destruct E as (_ & E1 & E2).
+  exists f. auto.
+Qed.
+
+Lemma write_insn_decodes dbg be (caf : N) (daf : Z) (i : cfi) bs :
+  cfi_wf i = true -> is_i8 daf = true -> write_insn dbg daf i = Ok bs ->
+  bs <> [] /\
+  exists d, (forall rest, decode1 be (bs ++ rest) = Some (d, rest)) /\ sem caf daf d = MInsn i.
+Proof.
+  intros Hwf Hdaf H.
+  destruct i as [r o|r|o|e|r|r|r|r o|r o|r1 r2|r e|r e| | |n| ]; cbn [cfi_wf] in Hwf; cbn [write_insn] in H;
+    repeat match goal with
+           | Hx : _ && _ = true |- _ => apply andb_true_iff in Hx; destruct Hx
+           end;
+    repeat match goal with
+           | Hx : is_u16 _ = true |- _ => apply is_u16_iff in Hx
+           | Hx : is_u32 _ = true |- _ => apply is_u32_iff in Hx
+           end.
+  - (* Cfa *)
+    destruct (o <? 0)%Z eqn:Eo.
+    + apply fdo_inv in H; [|assumption|assumption]. destruct H as (f & Hf1 & Hf2 & H).
+      apply is_i32_iff in Hf2.
+      use_uleb r H. use_sleb f H. finish_ok H. split; [discriminate|].
+      exists (DDefCfaSf r f). split.
+      * intros rest. cbn [app]. rewrite <- app_assoc, decode1_x12, Hd. cbn [omap]. rewrite Hd0. reflexivity.
+      * cbn [sem]. now rewrite Hf1.
+    + match goal with Hx : is_i32 o = true |- _ => apply is_i32_iff in Hx end.
+      destruct (z_as_u64_nonneg o) as [Hz1 Hz2]; [lia|].
+      use_uleb r H. use_uleb (z_as_u64 o) H. finish_ok H. split; [discriminate|].
+      exists (DDefCfa r (z_as_u64 o)). split.
+      * intros rest. cbn [app]. rewrite <- app_assoc, decode1_x0c, Hd. cbn [omap]. rewrite Hd0. reflexivity.
+      * cbn [sem]. now rewrite Hz2.
+  - (* CfaRegister *)
+    use_uleb r H. finish_ok H. split; [discriminate|].
+    exists (DDefCfaRegister r). split; [|reflexivity].
+    intros rest. cbn [app]. rewrite decode1_x0d, Hd. reflexivity.
+  - (* CfaOffset *)
+    destruct (o <? 0)%Z eqn:Eo.
+    + apply fdo_inv in H; [|assumption|assumption]. destruct H as (f & Hf1 & Hf2 & H).
+      apply is_i32_iff in Hf2.
+      use_sleb f H. finish_ok H. split; [discriminate|].
+      exists (DDefCfaOffsetSf f). split.
+      * intros rest. cbn [app]. rewrite decode1_x13, Hd. reflexivity.
+      * cbn [sem]. now rewrite Hf1.
+    + apply is_i32_iff in Hwf.
+      destruct (z_as_u64_nonneg o) as [Hz1 Hz2]; [lia|].
+      use_uleb (z_as_u64 o) H. finish_ok H. split; [discriminate|].
+      exists (DDefCfaOffset (z_as_u64 o)). split.
+      * intros rest. cbn [app]. rewrite decode1_x0e, Hd. reflexivity.
+      * cbn [sem]. now rewrite Hz2.
+  - (* CfaExpression *)
+    use_blob e H. finish_ok H. split; [discriminate|].
+    exists (DDefCfaExpression e). split; [|reflexivity].
+    intros rest. cbn [app]. rewrite decode1_x0f, Hd. reflexivity.
+  - (* Restore *)
+    destruct (r <? 64) eqn:Er.
+    + finish_ok H. split; [discriminate|].
+      exists (DRestore r). split; [|reflexivity].
+      intros rest. cbn [app]. rewrite wrap8_small by lia. rewrite lor192_small by lia.
+      assert (Hb : b2n (n2b (192 + r)) = 192 + r) by (apply byte_small; lia).
+      rewrite decode1_hi3 by (rewrite Hb; lia). rewrite Hb. f_equal. f_equal. f_equal. lia.
+    + use_uleb r H. finish_ok H. split; [discriminate|].
+      exists (DRestore r). split; [|reflexivity].
+      intros rest. cbn [app]. rewrite decode1_x06, Hd. reflexivity.
+  - (* Undefined *)
+    use_uleb r H. finish_ok H. split; [discriminate|].
+    exists (DUndefined r). split; [|reflexivity].
+    intros rest. cbn [app]. rewrite decode1_x07, Hd. reflexivity.
+  - (* SameValue *)
+    use_uleb r H. finish_ok H. split; [discriminate|].
+    exists (DSameValue r). split; [|reflexivity].
+    intros rest. cbn [app]. rewrite decode1_x08, Hd. reflexivity.
+  - (* Offset *)
+    apply fdo_inv in H; [|assumption|assumption]. destruct H as (f & Hf1 & Hf2 & H).
+    apply is_i32_iff in Hf2.
+    destruct (f <? 0)%Z eqn:Ef.
+    + use_uleb r H. use_sleb f H. finish_ok H. split; [discriminate|].
+      exists (DOffsetExtendedSf r f). split.
+      * intros rest. cbn [app]. rewrite <- app_assoc, decode1_x11, Hd. cbn [omap]. rewrite Hd0. reflexivity.
+      * cbn [sem]. now rewrite Hf1.
+    + destruct (z_as_u64_nonneg f) as [Hz1 Hz2]; [lia|].
+      destruct (r <? 64) eqn:Er.
+      * use_uleb (z_as_u64 f) H. finish_ok H. split; [discriminate|].
+        exists (DOffset r (z_as_u64 f)). split.
+        -- intros rest. cbn [app]. rewrite wrap8_small by lia. rewrite lor128_small by lia.
+           assert (Hb : b2n (n2b (128 + r)) = 128 + r) by (apply byte_small; lia).
+           rewrite decode1_hi2 by (rewrite Hb; lia). rewrite Hb, Hd. cbn [omap].
+           f_equal. f_equal. f_equal. lia.
+        -- cbn [sem]. now rewrite Hz2, Hf1.
+      * use_uleb r H. use_uleb (z_as_u64 f) H. finish_ok H. split; [discriminate|].
+        exists (DOffset r (z_as_u64 f)). split.
+        -- intros rest. cbn [app]. rewrite <- app_assoc, decode1_x05, Hd. cbn [omap]. rewrite Hd0. reflexivity.
+        -- cbn [sem]. now rewrite Hz2, Hf1.
+  - (* ValOffset *)
+    apply fdo_inv in H; [|assumption|assumption]. destruct H as (f & Hf1 & Hf2 & H).
+    apply is_i32_iff in Hf2.
+    destruct (f <? 0)%Z eqn:Ef.
+    + use_uleb r H. use_sleb f H. finish_ok H. split; [discriminate|].
+      exists (DValOffsetSf r f). split.
+      * intros rest. cbn [app]. rewrite <- app_assoc, decode1_x15, Hd. cbn [omap]. rewrite Hd0. reflexivity.
+      * cbn [sem]. now rewrite Hf1.
+    + destruct (z_as_u64_nonneg f) as [Hz1 Hz2]; [lia|].
+      use_uleb r H. use_uleb (z_as_u64 f) H. finish_ok H. split; [discriminate|].
+      exists (DValOffset r (z_as_u64 f)). split.
+      * intros rest. cbn [app]. rewrite <- app_assoc, decode1_x14, Hd. cbn [omap]. rewrite Hd0. reflexivity.
+      * cbn [sem]. now rewrite Hz2, Hf1.
+  - (* Register *)
+    use_uleb r1 H. use_uleb r2 H. finish_ok H. split; [discriminate|].
+    exists (DRegister r1 r2). split; [|reflexivity].
+    intros rest. cbn [app]. rewrite <- app_assoc, decode1_x09, Hd. cbn [omap]. rewrite Hd0. reflexivity.
+  - (* Expression *)
+    use_uleb r H. use_blob e H. finish_ok H. split; [discriminate|].
+    exists (DExpression r e). split; [|reflexivity].
+    intros rest. cbn [app]. rewrite <- app_assoc, decode1_x10, Hd. cbn [omap]. rewrite Hd0. reflexivity.
+  - (* ValExpression *)
+    use_uleb r H. use_blob e H. finish_ok H. split; [discriminate|].
+    exists (DValExpression r e). split; [|reflexivity].
+    intros rest. cbn [app]. rewrite <- app_assoc, decode1_x16, Hd. cbn [omap]. rewrite Hd0. reflexivity.
+  - finish_ok H. split; [discriminate|]. exists DRememberState. split; [|reflexivity].
+    intros rest. cbn [app]. apply decode1_x0a.
+  - finish_ok H. split; [discriminate|]. exists DRestoreState. split; [|reflexivity].
+    intros rest. cbn [app]. apply decode1_x0b.
+  - (* ArgsSize *)
+    use_uleb n H. finish_ok H. split; [discriminate|].
+    exists (DArgsSize n). split; [|reflexivity].
+    intros rest. cbn [app]. rewrite decode1_x2e, Hd. reflexivity.
+  - finish_ok H. split; [discriminate|]. exists DNegateRaState. split; [|reflexivity].
+    intros rest. cbn [app]. apply decode1_x2d.
+Qed.
+(* ------------------------------------------------------------------ *)
+(* 5. totality of write_insn; instruction areas decode completely       *)
+(* ------------------------------------------------------------------ *)
+
+Ltac g_uleb v :=
+  let lb := fresh "lb" in let Hw := fresh "Hw" in let Hne := fresh "Hne" in let Hd := fresh "Hd" in
+  destruct (write_uleb128_spec v) as (lb & Hw & Hne & Hd);
+  [ try (change (2 ^ 64) with 18446744073709551616; lia)
+  | rewrite Hw; cbn [bind] ].
+Ltac g_sleb v :=
+  let lb := fresh "sb" in let Hw := fresh "Hw" in let Hne := fresh "Hne" in let Hd := fresh "Hd" in
+  destruct (write_sleb128_spec v) as (lb & Hw & Hne & Hd);
+  [ try lia
+  | rewrite Hw; cbn [bind] ].
+Ltac g_blob e :=
+  let lb := fresh "bb" in let Hw := fresh "Hw" in let Hne := fresh "Hne" in let Hd := fresh "Hd" in
+  destruct (write_blob_spec e) as (lb & Hw & Hne & Hd);
+  [ try assumption
+  | rewrite Hw; cbn [bind] ].
+
+Lemma fdo_cases dbg o daf : is_i32 o = true -> is_i8 daf = true ->
+  (factored_data_offset dbg o daf = Err WInvalidFrameDataOffset /\ ~ factorable daf o) \/
+  (exists f, factored_data_offset dbg o daf = Ok f /\ (f * daf = o)%Z /\ is_i32 f = true).
+Proof.
+  intros Ho Hd. destruct (factored_data_offset_total dbg o daf Ho Hd) as [E|[q E]].
+  - left. split; [exact E|]. intros (q & H1 & H2 & H3).
+    assert (E' : factored_data_offset dbg o daf = Ok q)
+      by (apply factored_data_offset_ok; auto).
+    congruence.
+  - right. exists q. split; [exact E|].
+    apply (factored_data_offset_ok dbg o daf q Ho Hd) in E. tauto.
+Qed.
+
+Lemma write_insn_total dbg (daf : Z) (i : cfi) :
+  cfi_wf i = true -> is_i8 daf = true ->
+  (exists bs, write_insn dbg daf i = Ok bs) \/
+  (write_insn dbg daf i = Err WInvalidFrameDataOffset /\
+   exists o, factored_operand i = Some o /\ ~ factorable daf o).
+Proof.
+  intros Hwf Hdaf.
+  destruct i as [r o|r|o|e|r|r|r|r o|r o|r1 r2|r e|r e| | |n| ]; cbn [cfi_wf] in Hwf; cbn [write_insn factored_operand];
+    repeat match goal with
+           | Hx : _ && _ = true |- _ => apply andb_true_iff in Hx; destruct Hx
+           end;
+    repeat match goal with
+           | Hx : is_u16 _ = true |- _ => apply is_u16_iff in Hx
+           | Hx : is_u32 _ = true |- _ => apply is_u32_iff in Hx
+           end.
+  - destruct (o <? 0)%Z eqn:Eo.
+    + destruct (fdo_cases dbg o daf) as [[E Hn]|(f & E & Hf1 & Hf2)]; try assumption; rewrite E; cbn [bind].
+      * right. split; [reflexivity|]. exists o. auto.
+      * left. apply is_i32_iff in Hf2. g_uleb r. g_sleb f. eexists; reflexivity.
+    + left. match goal with Hx : is_i32 o = true |- _ => apply is_i32_iff in Hx end.
+      destruct (z_as_u64_nonneg o) as [Hz1 Hz2]; [lia|].
+      g_uleb r. g_uleb (z_as_u64 o). eexists; reflexivity.
+  - left. g_uleb r. eexists; reflexivity.
+  - destruct (o <? 0)%Z eqn:Eo.
+    + destruct (fdo_cases dbg o daf) as [[E Hn]|(f & E & Hf1 & Hf2)]; try assumption; rewrite E; cbn [bind].
+      * right. split; [reflexivity|]. exists o. auto.
+      * left. apply is_i32_iff in Hf2. g_sleb f. eexists; reflexivity.
+    + left. apply is_i32_iff in Hwf.
+      destruct (z_as_u64_nonneg o) as [Hz1 Hz2]; [lia|].
+      g_uleb (z_as_u64 o). eexists; reflexivity.
+  - left. g_blob e. eexists; reflexivity.
+  - left. destruct (r <? 64); [eexists; reflexivity|]. g_uleb r. eexists; reflexivity.
+  - left. g_uleb r. eexists; reflexivity.
+  - left. g_uleb r. eexists; reflexivity.
+  - destruct (fdo_cases dbg o daf) as [[E Hn]|(f & E & Hf1 & Hf2)]; try assumption; rewrite E; cbn [bind].
+    + right. split; [reflexivity|]. exists o. auto.
+    + left. apply is_i32_iff in Hf2. destruct (f <? 0)%Z eqn:Ef.
+      * g_uleb r. g_sleb f. eexists; reflexivity.
+      * destruct (z_as_u64_nonneg f) as [Hz1 Hz2]; [lia|].
+        destruct (r <? 64).
+        -- g_uleb (z_as_u64 f). eexists; reflexivity.
+        -- g_uleb r. g_uleb (z_as_u64 f). eexists; reflexivity.
+  - destruct (fdo_cases dbg o daf) as [[E Hn]|(f & E & Hf1 & Hf2)]; try assumption; rewrite E; cbn [bind].
+    + right. split; [reflexivity|]. exists o. auto.
+    + left. apply is_i32_iff in Hf2. destruct (f <? 0)%Z eqn:Ef.
+      * g_uleb r. g_sleb f. eexists; reflexivity.
+      * destruct (z_as_u64_nonneg f) as [Hz1 Hz2]; [lia|].
+        g_uleb r. g_uleb (z_as_u64 f). eexists; reflexivity.
+  - left. g_uleb r1. g_uleb r2. eexists; reflexivity.
+  - left. g_uleb r. g_blob e. eexists; reflexivity.
+  - left. g_uleb r. g_blob e. eexists; reflexivity.
+  - left. eexists; reflexivity.
+  - left. eexists; reflexivity.
+  - left. g_uleb n. eexists; reflexivity.
+  - left. eexists; reflexivity.
+Qed.
+
+(* an instruction that is written has a factorable operand *)
+Lemma write_insn_ok_factorable dbg daf i bs o :
+  cfi_wf i = true -> is_i8 daf = true -> write_insn dbg daf i = Ok bs ->
+  factored_operand i = Some o -> factorable daf o.
+Proof.
+  intros Hwf Hdaf H Ho.
+  assert (Hi : is_i32 o = true).
+  { destruct i; cbn [factored_operand cfi_wf] in *; try discriminate;
+      repeat match goal with Hx : _ && _ = true |- _ => apply andb_true_iff in Hx; destruct Hx end;
+      try (destruct (_ <? 0)%Z; [|discriminate]); injection Ho as <-; assumption. }
+  assert (K : exists (k : Z -> res (list byte)), write_insn dbg daf i = bind (factored_data_offset dbg o daf) k).
+  { destruct i; cbn [factored_operand] in Ho; try discriminate; cbn [write_insn];
+      try (destruct (_ <? 0)%Z; [|discriminate]); injection Ho as <-; eexists; reflexivity. }
+  destruct K as [k K]. rewrite K in H.
+  destruct (fdo_inv dbg o daf k bs Hi Hdaf H) as (f & Hf1 & Hf2 & _).
+  exists f. split; [|split; assumption].
+  intros ->. destruct (fdo_cases dbg o 0%Z Hi Hdaf) as [[E _]|(g & E & _)];
+    rewrite E in H; cbn [bind] in H; [discriminate|].
+  unfold factored_data_offset in E. cbn in E. discriminate.
+Qed.
+
+(* ---- whole instruction areas ---- *)
+Lemma decode_fuel_mono be : forall f f' bs ds,
+  decode_fuel f be bs = Some ds -> (f <= f')%nat -> decode_fuel f' be bs = Some ds.
+Proof.
+  induction f as [|f IH]; intros f' bs ds H Hle.
+  - destruct bs; cbn [decode_fuel] in H; [|discriminate].
+    destruct f'; exact H.
+  - destruct f' as [|f']; [lia|].
+    destruct bs as [|b r]; [exact H|].
+    cbn [decode_fuel] in *.
+    destruct (decode1 be (b :: r)) as [[d r1]|]; [|discriminate].
+    destruct (decode_fuel f be r1) as [ds1|] eqn:E; [|discriminate].
+    rewrite (IH f' r1 ds1 E) by lia. exact H.
+Qed.
+
+Lemma decode_all_nil be : decode_all be [] = Some [].
+Proof. reflexivity. Qed.
+
+Lemma decode_all_cons be (a b : list byte) d ds :
+  a <> [] -> (forall rest, decode1 be (a ++ rest) = Some (d, rest)) ->
+  decode_all be b = Some ds -> decode_all be (a ++ b) = Some (d :: ds).
+Proof.
+  intros Hne Ha Hb. unfold decode_all in *.
+  destruct a as [|x a']; [congruence|].
+  cbn [app length]. rewrite app_length. cbn [decode_fuel].
+  change (x :: a' ++ b) with ((x :: a') ++ b). rewrite Ha.
+  rewrite (decode_fuel_mono be (length b) (length a' + length b) b ds Hb) by lia.
+  reflexivity.
+Qed.
+
+Lemma decode_all_single be (a : list byte) d :
+  a <> [] -> (forall rest, decode1 be (a ++ rest) = Some (d, rest)) -> decode_all be a = Some [d].
+Proof.
+  intros Hne Ha. rewrite <- (app_nil_r a). apply decode_all_cons; auto.
+Qed.
+
+Lemma adv_enc_nonempty be d : adv_enc be d <> [].
+Proof. unfold adv_enc. destruct (d <? 64); [discriminate|]. destruct (d <? 256); [discriminate|]. destruct (d <? 65536); discriminate. Qed.
+
+Lemma write_insns_decodes dbg be (caf : N) (daf : Z) : forall (l : list cfi) bs,
+  forallb cfi_wf l = true -> is_i8 daf = true ->
+  write_insns dbg daf l = Ok bs ->
+  exists ds, decode_all be bs = Some ds /\ map (sem caf daf) ds = map MInsn l.
+Proof.
+  induction l as [|i r IH]; intros bs Hwf Hdaf H.
+  - cbn [write_insns] in H. injection H as <-. exists []. split; reflexivity.
+  - cbn [write_insns] in H. cbn [forallb] in Hwf. apply andb_true_iff in Hwf. destruct Hwf as [Hi Hr].
+    destruct (write_insn dbg daf i) as [a| | |] eqn:Ea; try discriminate. cbn [bind] in H.
+    destruct (write_insns dbg daf r) as [b| | |] eqn:Eb; try discriminate. cbn [bind] in H.
+    injection H as <-.
+    destruct (write_insn_decodes dbg be caf daf i a Hi Hdaf Ea) as (Hne & d & Hd & Hs).
+    destruct (IH b Hr Hdaf eq_refl) as (ds & Hds & Hm).
+    exists (d :: ds). split.
+    + apply decode_all_cons; assumption.
+    + cbn [map]. now rewrite Hs, Hm.
+Qed.
+
+Definition fde_insn_wf (p : N * cfi) : bool := is_u32 (fst p) && cfi_wf (snd p).
+
+Lemma write_fde_insns_decodes dbg be (caf : N) (daf : Z) : forall (l : list (N * cfi)) prev bs,
+  forallb fde_insn_wf l = true -> is_u8 caf = true -> is_i8 daf = true -> is_u32 prev = true ->
+  write_fde_insns dbg be caf daf prev l = Ok bs ->
+  exists ds, decode_all be bs = Some ds /\ locate prev (map (sem caf daf) ds) = l.
+Proof.
+  induction l as [|[off i] r IH]; intros prev bs Hwf Hcaf Hdaf Hprev H.
+  - cbn [write_fde_insns] in H. injection H as <-. exists []. split; reflexivity.
+  - cbn [write_fde_insns] in H. cbn [forallb] in Hwf. apply andb_true_iff in Hwf. destruct Hwf as [Hi Hr].
+    unfold fde_insn_wf in Hi. cbn [fst snd] in Hi. apply andb_true_iff in Hi. destruct Hi as [Hoff Hi].
+    destruct (write_advance_loc dbg be caf prev off) as [a| | |] eqn:Ea; try discriminate. cbn [bind] in H.
+    destruct (write_insn dbg daf i) as [b| | |] eqn:Eb; try discriminate. cbn [bind] in H.
+    destruct (write_fde_insns dbg be caf daf off r) as [c| | |] eqn:Ec; try discriminate. cbn [bind] in H.
+    injection H as <-.
+    destruct (write_insn_decodes dbg be caf daf i b Hi Hdaf Eb) as (Hne & d & Hd & Hs).
+    destruct (IH off c Hr Hcaf Hdaf Hoff Ec) as (ds & Hds & Hm).
+    destruct (write_advance_loc_ok dbg be caf prev off a Hcaf Hprev Hoff Ea)
+      as [[-> ->]|(delta & Hlt & Hmul & Hdl & ->)].
+    + exists (d :: ds). split.
+      * cbn [app]. apply decode_all_cons; assumption.
+      * cbn [map locate]. rewrite Hs. cbn [locate]. now rewrite Hm.
+    + exists (DAdvance delta :: d :: ds). split.
+      * apply decode_all_cons; [apply adv_enc_nonempty| |].
+        -- intros rest. apply decode1_adv_enc. exact Hdl.
+        -- apply decode_all_cons; assumption.
+      * cbn [map sem locate]. rewrite Hs. cbn [locate].
+        replace (prev + delta * caf) with off by lia. now rewrite Hm.
+Qed.
+(* ------------------------------------------------------------------ *)
+(* 6. entry layout: length field, nop padding, alignment                *)
+(* ------------------------------------------------------------------ *)
+
+Lemma pow2_u8_cases a : is_u8 a = true -> is_pow2 a = true ->
+  a = 1 \/ a = 2 \/ a = 4 \/ a = 8 \/ a = 16 \/ a = 32 \/ a = 64 \/ a = 128.
+Proof.
+  intros Hu Hp. apply is_u8_iff in Hu.
+  assert (E : (negb (is_pow2 a) || (a =? 1) || (a =? 2) || (a =? 4) || (a =? 8) || (a =? 16) || (a =? 32)
+               || (a =? 64) || (a =? 128)) = true).
+  { apply (forall_lt (fun a => negb (is_pow2 a) || (a =? 1) || (a =? 2) || (a =? 4) || (a =? 8) || (a =? 16)
+                               || (a =? 32) || (a =? 64) || (a =? 128)) 256); [vm_compute; reflexivity|exact Hu]. }
+  rewrite Hp in E. cbn [negb orb] in E. lia.
+Qed.
+
+Lemma land_pow2m1 a x :
+  a = 1 \/ a = 2 \/ a = 4 \/ a = 8 \/ a = 16 \/ a = 32 \/ a = 64 \/ a = 128 ->
+  N.land x (a - 1) = x mod a.
+Proof.
+  intros [->|[->|[->|[->|[->|[->|[->| ->]]]]]]].
+  - change (1 - 1) with (N.ones 0). rewrite N.land_ones. reflexivity.
+  - change (2 - 1) with (N.ones 1). rewrite N.land_ones. reflexivity.
+  - change (4 - 1) with (N.ones 2). rewrite N.land_ones. reflexivity.
+  - change (8 - 1) with (N.ones 3). rewrite N.land_ones. reflexivity.
+  - change (16 - 1) with (N.ones 4). rewrite N.land_ones. reflexivity.
+  - change (32 - 1) with (N.ones 5). rewrite N.land_ones. reflexivity.
+  - change (64 - 1) with (N.ones 6). rewrite N.land_ones. reflexivity.
+  - change (128 - 1) with (N.ones 7). rewrite N.land_ones. reflexivity.
+Qed.
+
+Lemma neg_mod_pow2 a L :
+  a = 1 \/ a = 2 \/ a = 4 \/ a = 8 \/ a = 16 \/ a = 32 \/ a = 64 \/ a = 128 ->
+  (L + (18446744073709551616 - L mod 18446744073709551616) mod 18446744073709551616 mod a) mod a = 0 /\
+  (18446744073709551616 - L mod 18446744073709551616) mod 18446744073709551616 mod a < a.
+Proof.
+  intros [->|[->|[->|[->|[->|[->|[->| ->]]]]]]]; lia.
+Qed.
+
+Lemma all_nop_repeat n : all_nop (repeat x00 n) = true.
+Proof. induction n as [|n IH]; [reflexivity|]. cbn [repeat all_nop forallb]. exact IH. Qed.
+
+Lemma write_nop_spec dbg L a pad :
+  is_u8 a = true -> is_pow2 a = true -> write_nop dbg L a = Ok pad ->
+  all_nop pad = true /\ len pad < a /\ (L + len pad) mod a = 0.
+Proof.
+  intros Hu Hp H. pose proof (pow2_u8_cases a Hu Hp) as Hc.
+  unfold write_nop in H.
+  destruct (a =? 0); [discriminate|].
+  destruct (dbg && negb (N.land a (a - 1) =? 0)); [discriminate|].
+  destruct (dbg && (wrap64 L =? 0)); [discriminate|].
+  injection H as <-.
+  rewrite (land_pow2m1 a _ Hc). unfold wrap64, two64, len.
+  rewrite repeat_length, N2Nat.id.
+  destruct (neg_mod_pow2 a L Hc) as [H1 H2].
+  split; [apply all_nop_repeat|]. split; assumption.
+Qed.
+
+Lemma enc_un_length n be v : length (enc_un n be v) = n.
+Proof. rewrite <- enc_num_enc_un. apply enc_num_length. Qed.
+
+Lemma write_udata_length be v size bs : write_udata be v size = Ok bs -> len bs = size.
+Proof.
+  unfold write_udata, len.
+  destruct (size =? 1) eqn:E1; [destruct (v <? 256); [|discriminate]; intros H; injection H as <-; rewrite enc_un_length; lia|].
+  destruct (size =? 2) eqn:E2; [destruct (v <? two16); [|discriminate]; intros H; injection H as <-; rewrite enc_un_length; lia|].
+  destruct (size =? 4) eqn:E4; [destruct (v <? two32); [|discriminate]; intros H; injection H as <-; rewrite enc_un_length; lia|].
+  destruct (size =? 8) eqn:E8; [intros H; injection H as <-; rewrite enc_un_length; lia|discriminate].
+Qed.
+
+Lemma write_initial_length_len fmt64 be l il :
+  write_initial_length fmt64 be l = Ok il -> len il = ilen_size fmt64.
+Proof.
+  unfold write_initial_length.
+  destruct (negb fmt64 && (4294967280 <=? l) && (l <=? 4294967295)); [discriminate|].
+  destruct (write_udata be l (word_size fmt64)) as [body| | |] eqn:E; try discriminate.
+  cbn [bind]. intros H; injection H as <-.
+  apply write_udata_length in E. unfold len in *. rewrite app_length.
+  destruct fmt64; cbn [word_size ilen_size] in *.
+  - rewrite enc_un_length. lia.
+  - cbn [length]. lia.
+Qed.
+
+Lemma close_entry_spec dbg be fmt64 asize body bs :
+  is_u8 asize = true -> is_pow2 asize = true ->
+  close_entry dbg be fmt64 asize body = Ok bs ->
+  exists il pad,
+    bs = il ++ body ++ pad /\
+    write_initial_length fmt64 be (len (body ++ pad)) = Ok il /\ len il = ilen_size fmt64 /\
+    all_nop pad = true /\ len pad < asize /\
+    (word_size fmt64 + len (body ++ pad)) mod asize = 0.
+Proof.
+  intros Hu Hp H. unfold close_entry in H.
+  destruct (write_nop dbg (word_size fmt64 + len body) asize) as [pad| | |] eqn:En; try discriminate.
+  cbn [bind] in H.
+  destruct (write_initial_length fmt64 be (len (body ++ pad))) as [il| | |] eqn:Ei; try discriminate.
+  cbn [bind] in H. injection H as <-.
+  destruct (write_nop_spec dbg _ asize pad Hu Hp En) as (H1 & H2 & H3).
+  exists il, pad. split; [reflexivity|]. split; [exact Ei|].
+  split; [eapply write_initial_length_len; eassumption|].
+  split; [exact H1|]. split; [exact H2|].
+  unfold len in *. rewrite app_length. rewrite Nat2N.inj_add. rewrite N.add_assoc. exact H3.
+Qed.
+
+(* inversion helper for binds *)
+Lemma bind_ok_inv {A B} (r : res A) (k : A -> res B) b : bind r k = Ok b -> exists a, r = Ok a /\ k a = Ok b.
+Proof. apply bind_ok. Qed.
+
+Lemma cie_write_layout dbg be eh pos (c : cie) bs :
+  is_u8 (c_asize c) = true -> is_pow2 (c_asize c) = true ->
+  cie_write dbg be eh pos c = Ok bs ->
+  exists il hdr insns pad,
+    bs = il ++ hdr ++ insns ++ pad /\
+    write_initial_length (c_fmt64 c) be (len (hdr ++ insns ++ pad)) = Ok il /\
+    len il = ilen_size (c_fmt64 c) /\
+    write_insns dbg (c_daf c) (c_insns c) = Ok insns /\
+    all_nop pad = true /\ len pad < c_asize c /\
+    (word_size (c_fmt64 c) + len (hdr ++ insns ++ pad)) mod c_asize c = 0.
+Proof.
+  intros Hu Hp H. unfold cie_write in H.
+  destruct (if eh then negb (c_version c =? 1)
+            else negb ((c_version c =? 1) || (c_version c =? 3) || (c_version c =? 4))); [discriminate|].
+  apply bind_ok_inv in H. destruct H as (cafb & _ & H).
+  apply bind_ok_inv in H. destruct H as (dafb & _ & H).
+  apply bind_ok_inv in H. destruct H as (rab & _ & H).
+  apply bind_ok_inv in H. destruct H as (augdata & _ & H).
+  apply bind_ok_inv in H. destruct H as (insns & Hins & H).
+  apply (close_entry_spec dbg be _ _ _ _ Hu Hp) in H.
+  destruct H as (il & pad & Hbs & Hil & Hlen & Hnop & Hpad & Hmod).
+  match type of Hbs with _ = il ++ ((?P ++ augdata ++ insns) ++ pad) =>
+    exists il, (P ++ augdata), insns, pad end.
+  rewrite <- !app_assoc in *.
+  repeat split; assumption.
+Qed.
+
+Lemma fde_write_layout dbg be eh pos coff (c : cie) (f : fde) bs :
+  is_u8 (c_asize c) = true -> is_pow2 (c_asize c) = true ->
+  fde_write dbg be eh pos coff c f = Ok bs ->
+  exists il hdr insns pad,
+    bs = il ++ hdr ++ insns ++ pad /\
+    write_initial_length (c_fmt64 c) be (len (hdr ++ insns ++ pad)) = Ok il /\
+    len il = ilen_size (c_fmt64 c) /\
+    write_fde_insns dbg be (c_caf c) (c_daf c) 0 (f_insns f) = Ok insns /\
+    all_nop pad = true /\ len pad < c_asize c /\
+    (word_size (c_fmt64 c) + len (hdr ++ insns ++ pad)) mod c_asize c = 0.
+Proof.
+  intros Hu Hp H. unfold fde_write in H.
+  apply bind_ok_inv in H. destruct H as (ptr & _ & H).
+  apply bind_ok_inv in H. destruct H as (addrs & _ & H).
+  apply bind_ok_inv in H. destruct H as (augdata & _ & H).
+  apply bind_ok_inv in H. destruct H as (insns & Hins & H).
+  apply (close_entry_spec dbg be _ _ _ _ Hu Hp) in H.
+  destruct H as (il & pad & Hbs & Hil & Hlen & Hnop & Hpad & Hmod).
+  exists il, (ptr ++ addrs ++ augdata), insns, pad.
+  rewrite <- !app_assoc in *.
+  repeat split; assumption.
+Qed.
+
+(* (4 or 12) + length against the address size *)
+Lemma total_size_aligned fmt64 asize L :
+  is_u8 asize = true -> is_pow2 asize = true ->
+  (word_size fmt64 + L) mod asize = 0 ->
+  (fmt64 = false \/ asize <= 4) -> (ilen_size fmt64 + L) mod asize = 0.
+Proof.
+  intros Hu Hp H Hk. pose proof (pow2_u8_cases asize Hu Hp) as Hc.
+  destruct fmt64; cbn [word_size ilen_size] in *; [|exact H].
+  destruct Hk as [Hk|Hk]; [discriminate|].
+  destruct Hc as [->|[->|[->|[->|[->|[->|[->| ->]]]]]]]; lia.
+Qed.
+
+Lemma total_size_misaligned asize L :
+  is_u8 asize = true -> is_pow2 asize = true -> 8 <= asize ->
+  (word_size true + L) mod asize = 0 -> (ilen_size true + L) mod asize = 4.
+Proof.
+  intros Hu Hp Hk H. pose proof (pow2_u8_cases asize Hu Hp) as Hc.
+  cbn [word_size ilen_size] in *.
+  destruct Hc as [->|[->|[->|[->|[->|[->|[->| ->]]]]]]]; lia.
+Qed.
+
+(* the area after the header decodes to the instructions followed by nops only *)
+Lemma decode1_x00 be r : decode1 be (x00 :: r) = Some (DNop, r).
+Proof. reflexivity. Qed.
+
+Lemma all_nop_decodes be : forall pad, all_nop pad = true ->
+  decode_all be pad = Some (repeat DNop (length pad)).
+Proof.
+  induction pad as [|b r IH]; intros H; [reflexivity|].
+  cbn [all_nop forallb] in H. apply andb_true_iff in H. destruct H as [Hb Hr].
+  assert (b = x00). { apply b2n_inj. change (b2n x00) with 0. lia. } subst b.
+  change (x00 :: r) with ([x00] ++ r). cbn [length repeat].
+  apply decode_all_cons; [discriminate|intros rest; apply decode1_x00|]. apply IH. exact Hr.
+Qed.
+
+(* extensible form of the decoding lemmas: what follows an instruction area is decoded after it *)
+Definition decodes_to (be : bool) (bs : list byte) (ds : list dinsn) : Prop :=
+  forall rest ds', decode_all be rest = Some ds' -> decode_all be (bs ++ rest) = Some (ds ++ ds').
+
+Lemma decodes_to_nil be : decodes_to be [] [].
+Proof. intros rest ds' H. exact H. Qed.
+
+Lemma decodes_to_cons be a d b ds :
+  a <> [] -> (forall rest, decode1 be (a ++ rest) = Some (d, rest)) ->
+  decodes_to be b ds -> decodes_to be (a ++ b) (d :: ds).
+Proof.
+  intros Hne Ha Hb rest ds' Hr. rewrite <- app_assoc. cbn [app].
+  apply decode_all_cons; [exact Hne|exact Ha|]. apply Hb. exact Hr.
+Qed.
+
+Lemma decodes_to_all be bs ds : decodes_to be bs ds -> decode_all be bs = Some ds.
+Proof. intros H. specialize (H [] [] eq_refl). now rewrite !app_nil_r in H. Qed.
+
+Lemma write_insns_decodes_ext dbg be (caf : N) (daf : Z) : forall (l : list cfi) bs,
+  forallb cfi_wf l = true -> is_i8 daf = true ->
+  write_insns dbg daf l = Ok bs ->
+  exists ds, decodes_to be bs ds /\ map (sem caf daf) ds = map MInsn l.
+Proof.
+  induction l as [|i r IH]; intros bs Hwf Hdaf H.
+  - cbn [write_insns] in H. injection H as <-. exists []. split; [apply decodes_to_nil|reflexivity].
+  - cbn [write_insns] in H. cbn [forallb] in Hwf. apply andb_true_iff in Hwf. destruct Hwf as [Hi Hr].
+    destruct (write_insn dbg daf i) as [a| | |] eqn:Ea; try discriminate. cbn [bind] in H.
+    destruct (write_insns dbg daf r) as [b| | |] eqn:Eb; try discriminate. cbn [bind] in H.
+    injection H as <-.
+    destruct (write_insn_decodes dbg be caf daf i a Hi Hdaf Ea) as (Hne & d & Hd & Hs).
+    destruct (IH b Hr Hdaf eq_refl) as (ds & Hds & Hm).
+    exists (d :: ds). split.
+    + apply decodes_to_cons; assumption.
+    + cbn [map]. now rewrite Hs, Hm.
+Qed.
+
+Lemma write_fde_insns_decodes_ext dbg be (caf : N) (daf : Z) : forall (l : list (N * cfi)) prev bs,
+  forallb fde_insn_wf l = true -> is_u8 caf = true -> is_i8 daf = true -> is_u32 prev = true ->
+  write_fde_insns dbg be caf daf prev l = Ok bs ->
+  exists ds, decodes_to be bs ds /\ locate prev (map (sem caf daf) ds) = l.
+Proof.
+  induction l as [|[off i] r IH]; intros prev bs Hwf Hcaf Hdaf Hprev H.
+  - cbn [write_fde_insns] in H. injection H as <-. exists []. split; [apply decodes_to_nil|reflexivity].
+  - cbn [write_fde_insns] in H. cbn [forallb] in Hwf. apply andb_true_iff in Hwf. destruct Hwf as [Hi Hr].
+    unfold fde_insn_wf in Hi. cbn [fst snd] in Hi. apply andb_true_iff in Hi. destruct Hi as [Hoff Hi].
+    destruct (write_advance_loc dbg be caf prev off) as [a| | |] eqn:Ea; try discriminate. cbn [bind] in H.
+    destruct (write_insn dbg daf i) as [b| | |] eqn:Eb; try discriminate. cbn [bind] in H.
+    destruct (write_fde_insns dbg be caf daf off r) as [c| | |] eqn:Ec; try discriminate. cbn [bind] in H.
+    injection H as <-.
+    destruct (write_insn_decodes dbg be caf daf i b Hi Hdaf Eb) as (Hne & d & Hd & Hs).
+    destruct (IH off c Hr Hcaf Hdaf Hoff Ec) as (ds & Hds & Hm).
+    destruct (write_advance_loc_ok dbg be caf prev off a Hcaf Hprev Hoff Ea)
+      as [[-> ->]|(delta & Hlt & Hmul & Hdl & ->)].
+    + exists (d :: ds). split.
+      * cbn [app]. apply decodes_to_cons; assumption.
+      * cbn [map locate]. rewrite Hs. cbn [locate]. now rewrite Hm.
+    + exists (DAdvance delta :: d :: ds). split.
+      * apply decodes_to_cons; [apply adv_enc_nonempty| |].
+        -- intros rest. apply decode1_adv_enc. exact Hdl.
+        -- apply decodes_to_cons; assumption.
+      * cbn [map sem locate]. rewrite Hs. cbn [locate].
+        replace (prev + delta * caf) with off by lia. now rewrite Hm.
+Qed.
+
+(* nops contribute nothing *)
+Lemma locate_nops caf daf loc ms n :
+  locate loc (ms ++ map (sem caf daf) (repeat DNop n)) = locate loc ms.
+Proof.
+  revert loc. induction ms as [|m r IH]; intros loc.
+  - cbn [app]. induction n as [|n IHn]; [reflexivity|]. cbn [repeat map sem locate]. exact IHn.
+  - destruct m; cbn [app locate]; rewrite IH; reflexivity.
+Qed.
